@@ -2,6 +2,7 @@
 package all
 
 import (
+	"verif/harness/c01"
 	"verif/harness/c04"
 	"verif/harness/c05"
 	"verif/harness/c17"
@@ -14,6 +15,7 @@ var Registry = map[string]Entry{}
 func reg(pkg, fn string, e Entry) { Registry["verif/harness/"+pkg+"."+fn] = e }
 
 func init() {
+	reg("c01", "Step", func(a []int64) { c01.Step(int(a[0]), int(a[1]), int(a[2]), int(a[3])) })
 	reg("c04", "BusRoundTrip", func(a []int64) { c04.BusRoundTrip(int(a[0])) })
 	reg("c04", "PakRoundTrip", func(a []int64) { c04.PakRoundTrip(int(a[0])) })
 	reg("c05", "BusWellFormed", func(a []int64) { c05.BusWellFormed(int(a[0])) })
